@@ -27,6 +27,28 @@ type unwrapIn struct {
 	On    bool   `json:"on"`
 	Label Ints   `json:"label"`
 	Conv  string `json:"conv"`
+	// Filters: label matchers written behind the unwrap expression (`| unwrap v | app="a"`): a sample counts only if all hold
+	Filters []matcherIn `json:"filters"`
+}
+
+func (u unwrapIn) MarshalJSON() ([]byte, error) {
+	type alias unwrapIn
+	a := alias(u)
+	if a.Filters == nil {
+		a.Filters = []matcherIn{}
+	}
+	if a.Label == nil {
+		a.Label = Ints{}
+	}
+	return json.Marshal(a)
+}
+
+func (u unwrapIn) filtersText() string {
+	var sb strings.Builder
+	for _, m := range u.Filters {
+		sb.WriteString(" | " + S(m.Label) + opText[m.Op] + quoteLogQL(S(m.Val)))
+	}
+	return sb.String()
 }
 
 type mexprIn struct {
@@ -104,6 +126,7 @@ func (e *mexprIn) text() string {
 			} else {
 				sb.WriteString(" | unwrap " + e.Unwrap.Conv + "(" + S(e.Unwrap.Label) + ")")
 			}
+			sb.WriteString(e.Unwrap.filtersText())
 		}
 		sb.WriteString(fmt.Sprintf(" [%ds]", e.Range))
 		if e.Offset != 0 {
@@ -202,6 +225,7 @@ func (famMetric) Exec(scn int, raw json.RawMessage, t *Trace, opt map[string]str
 var rangeOpsPlain = []string{"count_over_time", "rate", "bytes_over_time", "bytes_rate"}
 var rangeOpsUnwrap = []string{"sum_over_time", "avg_over_time", "min_over_time", "max_over_time", "stdvar_over_time", "stddev_over_time",
 	"quantile_over_time", "first_over_time", "last_over_time"}
+var convertible = map[string]bool{"sum_over_time": true, "avg_over_time": true, "min_over_time": true, "max_over_time": true, "first_over_time": true, "last_over_time": true}
 var groupableRange = map[string]bool{"avg_over_time": true, "min_over_time": true, "max_over_time": true, "stdvar_over_time": true,
 	"stddev_over_time": true, "quantile_over_time": true, "first_over_time": true, "last_over_time": true}
 
@@ -223,6 +247,13 @@ func genMetricRecs(r *rand.Rand, n int, span int, subsec bool) []MemRec {
 			rec.Attrs = append(rec.Attrs, [2][]int{B("zone"), B(pick(r, []string{"x", "y"}))})
 		}
 		rec.Attrs = append(rec.Attrs, [2][]int{B("v"), B(pick(r, []string{"1", "2", "3", "4", "0.5", "10"}))})
+		// values for the unwrap conversions bytes() and duration() / duration_seconds()
+		if r.Intn(3) != 0 {
+			rec.Attrs = append(rec.Attrs, [2][]int{B("sz"), B(pick(r, []string{"1KB", "512B", "1KiB", "2kb", "5B", "1.5KB"}))})
+		}
+		if r.Intn(3) != 0 {
+			rec.Attrs = append(rec.Attrs, [2][]int{B("d"), B(pick(r, []string{"1s", "500ms", "1m", "1.5s", "2s", "1m30s"}))})
+		}
 		recs = append(recs, rec)
 	}
 	// the specification takes the records in time order (the storage returns them so)
@@ -248,6 +279,22 @@ func genRange(r *rand.Rand, id int, unwrapOK bool) *mexprIn {
 		e.Unwrap = unwrapIn{On: true, Label: B("v")}
 		if e.Op == "quantile_over_time" {
 			e.Param = [][]int{{1, 2}, {0, 1}, {1, 1}, {9, 10}, {1, 4}}[r.Intn(5)]
+		}
+		// conversions (values in the thousands: kept away from the variances, whose exact rationals would leave 31 bits)
+		if convertible[e.Op] && r.Intn(2) == 0 {
+			switch r.Intn(3) {
+			case 0:
+				e.Unwrap = unwrapIn{On: true, Label: B("sz"), Conv: "bytes"}
+			case 1:
+				e.Unwrap = unwrapIn{On: true, Label: B("d"), Conv: "duration"}
+			default:
+				e.Unwrap = unwrapIn{On: true, Label: B("d"), Conv: "duration_seconds"}
+			}
+		}
+		// label matchers behind the unwrap expression
+		if r.Intn(4) == 0 {
+			eps, _ := json.Marshal(&ReAST{T: "eps"})
+			e.Unwrap.Filters = []matcherIn{{Label: B(pick(r, []string{"app", "zone"})), Op: pick(r, []string{"eq", "neq"}), Val: B(pick(r, []string{"a", "x", ""})), Re: eps}}
 		}
 		if groupableRange[e.Op] && r.Intn(2) == 0 {
 			e.Grp = grpIn{Mode: []string{"by", "without"}[r.Intn(2)], Labels: IntsList{B(pick(r, []string{"app", "zone", "v"}))}}
